@@ -2006,9 +2006,11 @@ def irdl_op_arg_definition(
 ) -> None:
     defs = get_construct_defs(op_def, construct)
 
+    # Without any variadic definition the same-size option is vacuous: use the
+    # plain accessors (the same-size ones divide by the number of variadics).
     if any(
         isinstance(o, get_same_variadic_size_option(construct)) for o in op_def.options
-    ):
+    ) and any(isinstance(d, VariadicDef) for _, d in defs):
         num_variadics = sum(isinstance(d, VariadicDef) for _, d in defs)
         variadics_encountered = 0
         num_defs = len(defs)
